@@ -169,7 +169,7 @@ func value(i int, self pdf.Reference) pdf.Object {
 	case 3:
 		return pdf.String(")(\\\r()(")
 	case 4:
-		return pdf.Dict{"S": pdf.Array{pdf.String("in(side"), pdf.Integer(7)}, "N": nil}
+		return pdf.Dict{"S": pdf.Array{pdf.String("in(side"), pdf.Integer(7)}, "N": nil, "R": pdf.Real(-3.5e25)}
 	case 5:
 		return pdf.NewReference(250, 0) // never written
 	case 6:
@@ -259,6 +259,9 @@ type Env struct {
 	HandRefs bool
 	// FailedCallsFirst runs failedCalls (poison.go) before every program.
 	FailedCallsFirst bool
+	// ManyObjects adds, as first operation only, 1600 Puts of objects of irregular
+	// sizes (the cross-reference data no longer fits the Writer's small-stream buffer).
+	ManyObjects bool
 }
 
 type interp struct {
@@ -442,6 +445,9 @@ func Exec(cfg Config, c *explore.Ctx, maxOps int, env *Env) (res *Result) {
 				kinds = append(kinds, "wcbig")
 			}
 		}
+		if env != nil && env.ManyObjects && nOps == 0 {
+			kinds = append(kinds, "putmany")
+		}
 		k := in.c.Choose(len(kinds), "op")
 		kind := kinds[k]
 		if kind == "end" {
@@ -489,6 +495,26 @@ func Exec(cfg Config, c *explore.Ctx, maxOps int, env *Env) (res *Result) {
 			for i := range refs {
 				res.Objs[refs[i]] = hx.Clone(vals[i])
 				res.InObjStm[refs[i]] = true
+			}
+		case "putmany":
+			const n = 1600
+			res.Ops = append(res.Ops, fmt.Sprintf("Put x %d (objects of irregular sizes)", n))
+			for i := 0; i < n; i++ {
+				r := in.alloc()
+				var v pdf.Object
+				switch i % 3 {
+				case 0:
+					v = pdf.Integer(int64(i) * int64(i) * 7919)
+				case 1:
+					v = pdf.String(bytes.Repeat([]byte{'x'}, (i*i)%41))
+				default:
+					v = pdf.Array{pdf.Integer(i), pdf.Name(fmt.Sprintf("N%d", i*i%1013))}
+				}
+				if err := w.Put(r, v); err != nil {
+					in.fail(err, "Put (many)")
+					return res
+				}
+				res.Objs[r] = v
 			}
 		case "wcbig":
 			// one object stream with more members than one byte can index
